@@ -126,6 +126,13 @@ def grid_cases(versions):
                 req = {"v": list(v), "cont": "CONTINUE",
                        "items": [litem, _hist.placeholder_item(pop, v), {"op": "GetAttributes"}]}
                 cases.append({"label": "Batch/Locate-%s+%s" % (ll, pop), "reqs": [req]})
+        # an item that has read the object (attributes, names, ... are loaded into the request's
+        # database session) in front of every object-addressing request, in ONE batch
+        hotk = idx["SymmetricKey/ACTIVE"]
+        for label, item in M.object_menu(hotk, idx) + M.attr_menu(hotk, v):
+            req = {"v": list(v), "cont": "CONTINUE",
+                   "items": [{"op": "GetAttributes", "uid": hotk}, item, {"op": "GetAttributes", "uid": hotk}]}
+            cases.append({"label": "Batch/read-then-" + label, "reqs": [req]})
         # the same object named by another spelling of its identifier (a numeric key column takes
         # '07', ' 7', '7.0', '+7' for 7) before and after it is destroyed under its usual spelling
         victim = idx["SymmetricKey/PRE_ACTIVE"]
